@@ -6,6 +6,7 @@ import P2sh.Driver.LangDrv
 import P2sh.Driver.BuiltinDrv
 import P2sh.Driver.ScanDrv
 import P2sh.Driver.VmDrv
+import P2sh.Driver.SymtabDrv
 open P2sh.Driver
 
 def dispatch (line : String) : String :=
@@ -22,6 +23,7 @@ def dispatch (line : String) : String :=
     | "hmap" => HMapDrv.run args
     | "builtin" => BuiltinDrv.run args
     | "scan" => ScanDrv.runScan args
+    | "symtab" => SymtabDrv.run args
     | "parse" => "MODEL-SKIP ## nopanic"
     | "compile" => "MODEL-SKIP ## nopanic"
     | _ => s!"bad-op {op}"
